@@ -1540,6 +1540,15 @@ class Models:
         n = a[0]
         return SSeq(n if isinstance(n, int) else num_term(n), lambda k: k if isinstance(k, int) else SInt(k), "ndarray", "arange")
 
+    def b_numpy_allclose(self, ip, a, kw, node):
+        """np.allclose(a, b): True whenever the arrays are equal entry by entry; for arrays that differ the answer depends on the
+        tolerances and magnitudes and is left open (a fresh Boolean)."""
+        eq = ip.schema.array_equal(ip, self.as_seq(a[0]), self.as_seq(a[1]))
+        r = sym.fresh("allclose", sym.B)
+        et = eq.t if isinstance(eq, SBool) else z3.BoolVal(bool(eq))
+        ip.path.assume(z3.Implies(et, r))
+        return SBool(r)
+
     def b_numpy_array_equal(self, ip, a, kw, node):
         return ip.schema.array_equal(ip, self.as_seq(a[0]), self.as_seq(a[1]))
 
